@@ -42,10 +42,10 @@ claims = {
          "configuration read-set vs. hashed-set analysis (call-graph region, SCCP-style specialisation, backward slices) on go/ssa", "4 C06"),
  "C05": ("Decides the operator-algebra and pairing clauses: the encode table (evalOperator) and the emitted-decode table (operatorToReversedBinaryExpr) are read off SSA and proved inverse exhaustively over 256x256 byte pairs per token; "
          "every operator randOperator draws is in both tables and unknown ones panic; every draw reaches one encode and its matching emitted decode; the ext-key statement list is reversed; the size window [8,2048] is used by all three guards; "
-         "the obfuscator skips exactly nosplit/const/-X subtrees. States plainly that it decides this clause, not decode(encode(x)) = x for any obfuscator.",
+         "the obfuscator skips exactly nosplit/const/-X subtrees and constant expressions of a non-string kind (array lengths must stay constant). States plainly that it decides this clause, not decode(encode(x)) = x for any obfuscator.",
          "table extraction from go/ssa + exhaustive evaluation over bytes; def-use pairing of operator draws", "4 C05"),
  "C12": ("Decides what each name's salt may depend on, by constant-propagating flagSeed.present() = true/false through the salt functions and slicing the salt handed to hashWithCustomSalt: seeded -> import path (+separator) / struct identity only and no configuration read "
-         "by anything reachable; unseeded -> GarbleActionID / addGarbleToHash(struct identity) with addGarbleToHash covering binary id, GOGARBLE, -literals, -tiny, controlflow; hash input salt,seed,name; runtime magic/entry key split the same way; short seeds rejected. "
+         "by anything reachable; unseeded -> GarbleActionID / addGarbleToHash(struct identity) with addGarbleToHash covering binary id, GOGARBLE, -literals, -tiny, controlflow; hash input salt,seed,name; runtime magic/entry key split the same way; short seeds rejected; the decoded seed is stored and hashed whole (no slicing). "
          "Decides dependencies, not that names actually differ.",
          "SCCP-style specialisation + backward dependence slices + configuration read sets on go/ssa", "4 C12"),
  "C14": ("Decides the guard clauses: ToObfuscate has a single decision point behind the runtime/cgo/fips140/empty exclusions; the no-match rejection is exactly mainBuild && !anyToObfuscate && !matches(runtime) and dominates every success return; "
@@ -72,7 +72,7 @@ claims = {
          "closed-set call check on a type-switch region + operand provenance on go/ssa", "4 C15"),
  "C10": ("Decides the writer cut: garble's strip table is obtained by interpreting the AST of stripRuntime for every (file, function) of the pinned toolchain's runtime package (type-checked from GOROOT source, ~2800 functions, SSA); on the call graph with "
          "emptied bodies removed, constant-false blocks pruned and print builtins redirected, no function entered from outside Go source other than the print primitives can reach write(2, ...), and no primitive is emptied; required strips exist and are validated; "
-         "print/println are redirected to an empty variadic function; the linker patch reads the variable mainErr sets under -tiny; positions are blank under -tiny. Assumes assembly and cgo C code do not write to fd 2. Decides this clause, not exit status or recover values.",
+         "print/println are redirected to an empty variadic function by a walk that prunes no subtree except below a renamed call and covers the whole file; the linker patch reads the variable mainErr sets under -tiny; positions are blank under -tiny. Assumes assembly and cgo C code do not write to fd 2. Decides this clause, not exit status or recover values.",
          "AST interpretation of the strip table + reachability on go/ssa of GOROOT's runtime", "4 C10"),
  "C11": ("Decides exhaustiveness clauses: every concrete ssa.Instruction of the resolved x/tools (41) is converted, rejected by a failing default, or skipped for a reviewed reason; terminator, type and constant switches reject unknown kinds; "
          "every exported field of each handled instruction (60) is read or listed as meaningless; the converter reads FreeVars, AnonFuncs, Blocks, Signature and Recover of the function; directive values are bounded and unknown hardening names panic; "
@@ -87,7 +87,7 @@ claims = {
          "the importcfg has only two line kinds; asm files get hashed names; every 'keep the name' and 'skip the identifier' exit is a documented exception. Decides these clauses, not the bytes of any binary.",
          "backward dependence of success returns, dominance and exit classification on go/ssa", "4 C02"),
  "C09": ("Decides coverage clauses: literals.Obfuscate runs exactly under flagLiterals && ToObfuscate and its result is returned; the string rewrite is keyed on type information (not narrowed to a syntactic node kind) and replaces the node; "
-         "byte composites are handled as &lit and plain, arrays and slices; both paths test [8,2048]; skips are exactly nosplit/const/-X; the seed is read only by twelve reviewed functions and appendFlags is used only for the hash and -toolexec. "
+         "byte composites are handled as &lit and plain, arrays and slices; both paths test [8,2048]; skips are exactly nosplit/const/-X/constant non-string expressions; the seed is read only by twelve reviewed functions and appendFlags is used only for the hash and -toolexec. "
          "Decides these clauses, not which expressions go/types marks constant nor the bytes of any binary.",
          "edge-fact and provenance checks on go/ssa; configuration read-set for the seed", "4 C09"),
  "C04": ("Decides sibling agreement between the build (printFile) and reverse (commandReverse): same format constant, Offset of the Position of CallExpr.Pos(), .go suffix, and the same derivation of the file-name operand (one known finding: cgo packages, F11); "
